@@ -1089,6 +1089,15 @@ class StrategyBase(Node):
 
         The result is a MultiIndex DataFrame.
         """
+        # no securities (e.g. nothing was ever traded in a strategy with lazily
+        # created children): no transactions, same shape as usual
+        if len(self.securities) == 0:
+            return pd.DataFrame(
+                {"price": [], "quantity": []},
+                index=pd.MultiIndex.from_arrays([[], []], names=["Date", "Security"]),
+                dtype=float,
+            )
+
         # get prices for each security in the strategy & create unstacked
         # series
         prc = pd.DataFrame({x.name: x.prices for x in self.securities}).unstack()
